@@ -35,7 +35,8 @@ def ties(r, n):
     for si, ch in enumerate(chunks(with_un, shard)):
         body = ";\n".join("(%s, %s, %s, %s)" % (c["f"], c["un"], c.get("unun", "(Run [])") if "unun" in c else c["f"],
                                                   c.get("anti", "(Run [])")) for c in ch)
-        flags = ";".join("(%s,%s)" % ("true" if "unun" in c else "false", "true" if "anti" in c else "false") for c in ch)
+        # ⌝ is in the property for dyadic BLOCKS only (depth 1); anti-inverses of composites are counted, not judged
+        flags = ";".join("(%s,%s)" % ("true" if "unun" in c else "false", "true" if ("anti" in c and c["depth"] == 1) else "false") for c in ch)
         jobs.append(("c03_sig_%d" % si, HDR +
                      "Definition dual (a b : node) : N := match root_sig a, root_sig b with\n"
                      "  | Some x, Some y => if sig_eqb y (sig_inverse x) && Nat.eqb (sua x) 0 && Nat.eqb (suo x) 0 then 0%%N else 1%%N\n"
@@ -45,7 +46,7 @@ def ties(r, n):
                      "  | _, _ => 2%%N end.\n"
                      "Definition cases : list (node * node * node * node) := [\n%s\n].\n"
                      "Definition flags : list (bool * bool) := [%s].\n"
-                     "Eval vm_compute in (map (fun cf => let '(f, u, uu, an) := fst cf in\n"
+                     "Eval vm_compute in (map (fun cf : (node * node * node * node) * (bool * bool) => let '(f, u, uu, an) := fst cf in\n"
                      "  (dual f u, if fst (snd cf) then dual u uu else 0%%N, if snd (snd cf) then antid f an else 0%%N)) (combine cases flags)).\n"
                      % (body, flags)))
     # ---- (b) the validator on the real templates
@@ -103,7 +104,8 @@ def ties(r, n):
                                      "no_inverse_or_compile_error": len(terms) - len(with_un),
                                      "dual_in_model_of_checker": sig_ok, "not_covered_by_checker_model": sig_unc,
                                      "not_dual": len(sig_bad), "not_dual_by_real_checker": len(rust_bad),
-                                     "anti_pairs": sum(1 for c in with_un if "anti" in c),
+                                     "anti_pairs_checked(blocks)": sum(1 for c in with_un if "anti" in c and c["depth"] == 1),
+                                     "anti_of_composites_not_judged": sum(1 for c in with_un if "anti" in c and c["depth"] > 1),
                                      "depth_hist": {str(d): sum(1 for c in terms if c.get("depth") == d) for d in range(1, 6)},
                                      "depth2_exhaustive": (summ[0] if summ else {})}
     r.coverage["tie_validator"] = {"kind": "V", "pairs": len(with_un),
